@@ -15,10 +15,10 @@ KEYS = [{"n": "p", "k": 1}, {"n": "q", "k": 0}, {"n": "r", "k": 2}, {"n": "u", "
 
 FACTS_FULL = [C("p", A("a")), C("p", A("b")), C("p", C("f", V(0))), C("p", V(0)), A("q"),
               C("r", A("a"), A("b")), C("r", V(0), V(0))]
-FACTS_QUICK = [C("p", A("a")), C("p", A("b")), C("p", V(0)), A("q"), C("r", V(0), V(0))]
+FACTS_QUICK = [C("p", A("a")), C("p", A("b")), C("p", V(0)), A("q"), C("r", V(0), V(0)), C("r", A("a"), A("b"))]
 PATS_FULL = [C("p", A("a")), C("p", V(0)), C("p", C("f", A("a"))), A("q"), C("r", V(0), V(1)), C("r", V(0), V(0)),
              C("r", A("a"), V(0)), C("u", V(0)), A("w")]
-PATS_QUICK = [C("p", A("a")), C("p", V(0)), A("q"), C("r", V(0), A("b")), C("u", V(0)), A("w")]
+PATS_QUICK = [C("p", A("a")), C("p", V(0)), A("q"), C("r", V(0), A("b")), C("r", V(0), V(0)), C("u", V(0)), A("w")]
 
 
 def nvars(t):
@@ -120,12 +120,15 @@ def features(scn, rec, r):
 def run(tier, seed):
     chk = Check("C07", tier, seed)
     if tier == "quick":
-        ops = menu(FACTS_QUICK, PATS_QUICK)          # 35 operations
+        ops = menu(FACTS_QUICK, PATS_QUICK)          # 41 operations
         chk.machine_family("api-d3", [build(ops, 3, "api")], features=features)
         sub = shard(ops, 0, seed, 14)
         chk.machine_family("clause-d3", [build(sub, 3, "clause")], features=features)
         chk.machine_family("boundvar-d3", [build(sub, 3, "boundvar")], features=features)
         chk.machine_family("assert_fact-d3", [build(sub, 3, "assert_fact")], features=features)
+        # several database operations inside one clause body, between two answers of an enumeration
+        from . import c14
+        chk.machine_family("ops-within-one-body", c14.body_scenarios(), features=features)
         chk.exhaustive = True
     else:
         ops = menu(FACTS_FULL, PATS_FULL)            # 51 operations
@@ -136,6 +139,8 @@ def run(tier, seed):
         chk.machine_family("assert_fact-d3", [build(q, 3, "assert_fact")], features=features)
         sub = shard(q, 0, seed, 18)
         chk.machine_family("api-d4", [build(sub, 4, "api")], features=features)
+        from . import c14
+        chk.machine_family("ops-within-one-body", c14.body_scenarios(), features=features)
         chk.exhaustive = True
     chk.assumptions = ["TLC and the TLA+ modules Terms/YP", "the projection (harness/real.py) and the Prolog renderer (harness/terms.py)",
                        "database contents are read back with match_dynamic (facts-only public API)"]
